@@ -8,7 +8,9 @@ from . import common
 from .tgops import build_tg, read_tg
 
 
-def dejitter_table(rep, kind, k, refkind, r):
+def dejitter_table(rep, kind, k, refkind, r, history=False):
+    """history=True: the reference tier has already served as a reference (its .timestamps were read) and then lost
+    its first entry through deleteEntry; dejitter must snap onto the timestamps it has now."""
     idx = common.ctx()
     cls = "IntervalTier" if kind == "interval" else "PointTier"
     fn = idx.get(cls + ".dejitter")
@@ -22,12 +24,21 @@ def dejitter_table(rep, kind, k, refkind, r):
         refs = [x for e in R for x in (e[0], e[1])]
     else:
         refs = [e[0] for e in R]
-    tr = TableRun(rep, "T13-dejitter", fn.short, fn.loc)
+    tr = TableRun(rep, "T13-dejitter-history" if history else "T13-dejitter", fn.short, fn.loc)
+    if history:
+        refs = refs[2:] if refkind == "interval" else refs[1:]
 
     def rows(st):
         def code(I):
             t = build_tier(I, kind, "T", ents, m, M)
             ref = build_tier(I, refkind, "R", R, rm, rM)
+            if history:
+                I.iterate(I.getattr(ref, "timestamps"))
+                try:
+                    I.call_value(I.getattr(t, "dejitter"), [ref, D], {})
+                except PyRaise:
+                    pass
+                I.call_value(I.getattr(ref, "deleteEntry"), [I.iterate(I.getattr(ref, "entries"))[0]], {})
             res = I.call_value(I.getattr(t, "dejitter"), [ref, D], {})
             return read_tier(I, res)
         got, I = run_code(idx, st, code)
@@ -43,7 +54,7 @@ def dejitter_table(rep, kind, k, refkind, r):
         return [compare_outcomes(I, "dejitter", got, want)]
 
     run_states(at, rows, tr)
-    tr.done("%d %s entries against a %s reference with %d entries, maxDifference D>0" % (k, kind, refkind, r))
+    tr.done("%d %s entries against a %s reference with %d entries%s, maxDifference D>0" % (k, kind, refkind, r, " that was used once and then lost its first entry" if history else ""))
 
 
 def morph_table(rep, k):
@@ -173,5 +184,8 @@ def run(rep, tier):
     for k in ([1, 2] if tier == "quick" else [1, 2, 3]):
         morph_table(rep, k)
 
+    rep.rule("T13-dejitter-history", "dejitter against a reference tier that has served as a reference before and was then edited in place (deleteEntry): the result is the one for the reference's current timestamps (a derived view kept from the first use would be stale)")
+    dejitter_table(rep, "point", 1, "point", 2, history=True)
+    dejitter_table(rep, "interval", 1, "point", 2, history=True)
     rep.rule("V-fresh", "no method or property of a tier / textgrid class is memoised (cached_property, lru_cache): derived views such as .timestamps are recomputed from the current entries at every access")
     common.rule_no_memo(rep)
